@@ -270,7 +270,7 @@ pub fn tables<F: BoolExt>(args: &Args) {
                         }
                     }
                     // apply-and-quantify = composition of two table look-ups
-                    let stride = if thorough { 1 } else { 16 };
+                    let stride = if thorough { 4 } else { 16 };
                     let mut k = rng.below(stride);
                     for (q, qtab) in &quant {
                         for (op, btab) in &bin_tabs {
